@@ -1,4 +1,4 @@
-import Octo.Lemmas.TypingSound2
+import Octo.Lemmas.TypingCoalesce
 /-! Octo.Lemmas.TypingMain — the induction over expressions that assembles the rule-by-rule lemmas. -/
 namespace Octo.Tc
 open Octo Octo.Ty
@@ -96,7 +96,17 @@ theorem typecheck_sound {S : Sig} {Γ : Ctx} (hS : SigOk S) (hΓ : CtxWf Γ) :
           | ok T =>
             simp only [hct, Except.ok.injEq] at h
             subst h
-            exact coalesce_sound hps hct
+            refine ⟨coalesceTy_wf qs q.ty T hct (hps q (by simp)).1 (fun a ha => (hps a (by simp [ha])).1), ?_⟩
+            intro hp ρ v he hv
+            simp only [coalesceOk, Bool.and_eq_true] at hp
+            obtain ⟨hpl, hok⟩ := hp
+            simp only [coalesceArgsOk, Bool.or_eq_true, Bool.and_eq_true, List.all_eq_true] at hok
+            rcases hok with (hany | hplain) | ⟨nT, hcov⟩
+            · have := eq_any_of_isAny hany
+              subst this
+              simp [PExpr.ty]
+            · exact coalesce_sound_plain hps hct hpl hplain ρ v he hv
+            · exact coalesce_sound_covered hps (by simp) hpl nT hcov ρ v he hv
   | .tuple args, p, hc, h => by
     simp only [typecheck] at h
     simp only [constsOk] at hc
